@@ -115,12 +115,17 @@ func allStacks() string {
 	return string(buf[:n])
 }
 
-// topRepoFrame returns the goroutine's state and its first repo frame.
+// topRepoFrame returns the goroutine's state and the repo function it is blocked in: the first
+// frame below the standard library must belong to the relay. A goroutine that is blocked inside
+// harness code (a capture route's own mutex, the stall detector) is not a relay stall: "" then.
 func topRepoFrame(block string) (state, frame string) {
 	if m := regexp.MustCompile(`^goroutine \d+ \[([^\],]+)`).FindStringSubmatch(block); m != nil {
 		state = m[1]
 	}
 	for _, l := range strings.Split(block, "\n") {
+		if l == "" || l[0] == '\t' || strings.HasPrefix(l, "goroutine ") || strings.HasPrefix(l, "created by ") {
+			continue
+		}
 		if strings.HasPrefix(l, "github.com/grafana/carbon-relay-ng/") {
 			f := strings.TrimPrefix(l, "github.com/grafana/carbon-relay-ng/")
 			if k := strings.LastIndex(f, "("); k > 0 {
@@ -128,6 +133,10 @@ func topRepoFrame(block string) (state, frame string) {
 			}
 			return state, f
 		}
+		if strings.HasPrefix(l, "verifharness/") || strings.HasPrefix(l, "main.") {
+			return state, "" // parked in the harness itself
+		}
+		// anything else is standard library / runtime: keep walking down
 	}
 	return state, ""
 }
